@@ -131,7 +131,8 @@ def main():
         emit(key + "_max_gap", int(m.group(1)) * int(m.group(2)))
         m = one(s, r"if frame\.context\.get_instruction_pointer\(\) < (\d+) \{", key + " nullish cut-off")
         emit(key + "_ip_cutoff", int(m.group(1)))
-        one(s, r"if frame\.context\.get_stack_pointer\(\) <= ctx\.[er]sp( as u64)? \{", key + " sp progress check")
+        m = one(s, r"if frame\.context\.get_stack_pointer\(\) (<=|<) ctx\.[er]sp( as u64)? \{", key + " sp progress check")
+        out.append("Definition %s_sp_stop_le : bool := %s.  (* end of stack when caller sp %s callee sp *)" % (key, "true" if m.group(1) == "<=" else "false", m.group(1)))
         m = one(s, r"frame\.instruction = ip - (\d+);", key + " call adjustment")
         emit(key + "_adj", int(m.group(1)))
     m = one(src["amd64"], r"Os::Windows => resolve\((\d+), (\d+) \* POINTER_WIDTH\)\?,\s*_ => resolve\((\d+), (\d+)\)\?,", "amd64 resolve calls")
@@ -186,7 +187,8 @@ def main():
         one(s, r"let scan_range = if let FrameTrust::Context = args\.callee_frame\.trust \{\s*extended_scan_range\s*\} else \{\s*default_scan_range\s*\};", key + " scan range choice")
         m = one(s, r"if frame\.context\.get_instruction_pointer\(\) < (\d+) \{", key + " nullish cut-off")
         emit(key + "_ip_cutoff", int(m.group(1)))
-        one(s, r"if sp <= last_sp \{.*?let is_leaf = args\.callee_frame\.trust == FrameTrust::Context && sp == last_sp;\s*if !is_leaf \{", key + " sp progress / leaf check", re.S)
+        m = one(s, r"if sp (<=|<) last_sp \{.*?let is_leaf = args\.callee_frame\.trust == FrameTrust::Context && sp == last_sp;\s*if !is_leaf \{", key + " sp progress / leaf check", re.S)
+        out.append("Definition %s_sp_stop_le : bool := %s.  (* end of stack when caller sp %s callee sp *)" % (key, "true" if m.group(1) == "<=" else "false", m.group(1)))
         m = one(s, r"frame\.instruction = ip - (\d+);", key + " call adjustment")
         emit(key + "_adj", int(m.group(1)))
     one(src["arm"], r"if args\.system_info\.os != Os::Ios \{\s*return None;", "arm frame pointer: iOS only")
@@ -221,7 +223,8 @@ def main():
     emit("mips_instr_min", intlit(m.group(1)))
     m = one(s, r"if frame\.context\.get_instruction_pointer\(\) < (\d+) \{", "mips nullish cut-off")
     emit("mips_ip_cutoff", int(m.group(1)))
-    one(s, r"if sp <= last_sp \{.*?let is_leaf = args\.callee_frame\.trust == FrameTrust::Context && sp == last_sp;\s*if !is_leaf \{", "mips sp progress / leaf check", re.S)
+    m = one(s, r"if sp (<=|<) last_sp \{.*?let is_leaf = args\.callee_frame\.trust == FrameTrust::Context && sp == last_sp;\s*if !is_leaf \{", "mips sp progress / leaf check", re.S)
+    out.append("Definition mips_sp_stop_le : bool := %s.  (* end of stack when caller sp %s callee sp *)" % ("true" if m.group(1) == "<=" else "false", m.group(1)))
     m = one(s, r"frame\.instruction = ip - (\d+);", "mips call adjustment")
     emit("mips_adj", int(m.group(1)))
 
